@@ -177,13 +177,17 @@ static void gamma_grid(unsigned long long& unit)
 		ld tol = 16 * (ld)U_ * std::max((ld)1, fabsl(refv));
 		if(!(fabsl(v - refv) <= tol)) fail("gammaln", key, "gammaln_inaccurate", "GammaLn = " + mc::dec(v) + " reference " + mc::dec((double)refv) + " error/u = " + mc::dec((double)(fabsl(v - refv) / U_ / std::max((ld)1, fabsl(refv)))));
 		else mc::maxi("gammaln_err_in_u", (double)(fabsl(v - refv) / U_ / std::max((ld)1, fabsl(refv))), key);
-		if(x + 1 <= 171.6)	 // Gamma is finite up to 171.62
+		if(x <= 171.6)	 // Gamma is finite up to 171.62
 		{
-			double g = Gamma(x), g1 = Gamma(x + 1);
+			double g = Gamma(x);
 			ld amp = 32 * (ld)U_ * (1 + std::max(fabsl(lgammal((ld)x + 1)), fabsl(refv)));	// Gamma = exp(GammaLn): the rounding of the logarithm is amplified by its size
-			if(!(fabsl(g1 - (ld)x * g) <= amp * fabsl(g1))) fail("gammaln", key, "gamma_recurrence_violated", "Gamma(x+1) = " + mc::dec(g1) + " x*Gamma(x) = " + mc::dec(x * g));
 			ld gr = expl(refv);
-			if(!(fabsl(g - gr) <= amp * gr)) fail("gammaln", key, "gamma_inaccurate", "Gamma = " + mc::dec(g) + " reference " + mc::dec((double)gr));
+			if(!std::isfinite(g) || !(fabsl(g - gr) <= amp * gr)) fail("gammaln", key, "gamma_inaccurate", "Gamma = " + mc::dec(g) + " reference " + mc::dec((double)gr));
+			if(x + 1 <= 171.6)
+			{
+				double g1 = Gamma(x + 1);
+				if(!std::isfinite(g1) || !(fabsl(g1 - (ld)x * g) <= amp * fabsl(g1))) fail("gammaln", key, "gamma_recurrence_violated", "Gamma(x+1) = " + mc::dec(g1) + " x*Gamma(x) = " + mc::dec(x * g));
+			}
 		}
 	}
 	mc::count("gamma_points", cases);
